@@ -295,6 +295,71 @@ def o_c01(rec):
                          step_kind=ev["kind"], excess=float(np.max(exc)),
                          x=x, xl=xl, xu=xu, eval_index=ev["i"]))
             break
+    # B': the same statement in the USER's variables, with the documented
+    # map computed by the harness (independent of Problem.build_x and of the
+    # solver's own box): the image of the solver's trial point lies in
+    # [lb, ub] up to rounding BEFORE any projection, and the user functions
+    # are called at that image (not at a repaired point).
+    if not out:
+        scale_opt = bool(completed_options(rec).get("scale"))
+        for ev in rec.run.evals:
+            if ev["exc"] not in (None, "CallbackSuccess"):
+                continue
+            raw = truth.user_point(b, scale_opt, ev["x"], project=False)
+            if raw is None or not np.all(np.isfinite(raw)):
+                continue
+            info["map_checks"] = info.get("map_checks", 0) + 1
+            with np.errstate(invalid="ignore"):
+                exc = np.maximum(np.maximum(lb - raw, raw - ub), 0.0)
+                mag = np.maximum(np.abs(raw), np.maximum(
+                    np.where(np.isfinite(lb), np.abs(lb), 0.0),
+                    np.where(np.isfinite(ub), np.abs(ub), 0.0)))
+                wid = np.where(np.isfinite(ub - lb), ub - lb, 0.0)
+                # rounding of x*factor+shift, plus the excess the solver-space
+                # point is allowed by clause B (64 eps of ITS operands, i.e.
+                # of a unit box when scaled), mapped to user units
+                tol = 64.0 * EPS * (np.maximum(1.0, mag)
+                                    + (wid if scale_opt else 0.0))
+                xb = ev.get("x_best")
+                if xb is not None and xb.shape == ev["x"].shape and xb.size:
+                    rb = truth.user_point(b, scale_opt, xb, project=False)
+                    if rb is not None and np.all(np.isfinite(rb)):
+                        tol = tol + 64.0 * EPS * np.abs(rb) + np.maximum(
+                            np.maximum(lb - rb, rb - ub), 0.0)
+            # ... and the functions are called AT that image
+            sl = rec.run.log[ev["log0"]:ev.get("log1", ev["log0"])]
+            calls = [e for e in sl if e["t"] in ("obj", "con")]
+            if calls:
+                want = np.clip(raw, lb, ub)
+                got = calls[0]["x"]
+                if got.shape == want.shape:
+                    with np.errstate(invalid="ignore"):
+                        lim = 16.0 * EPS * (np.maximum(np.abs(want),
+                                                       np.abs(got)) + mag)
+                        bad = np.abs(got - want) > lim
+                    if np.any(bad):
+                        out.append(V(
+                            "B.called_elsewhere",
+                            f"the '{ev['kind']}' trial point "
+                            f"{ev['x'].tolist()} corresponds to "
+                            f"{want.tolist()} in the user's variables but "
+                            f"the {calls[0]['t']} function was called at "
+                            f"{got.tolist()}",
+                            mechanism="called_elsewhere:" + ev["kind"],
+                            eval_index=ev["i"]))
+                        break
+            worst = float(np.max(exc / tol)) if exc.size else 0.0
+            if worst > 8.0:
+                out.append(V(
+                    "B.user_image_outside",
+                    f"the image {raw.tolist()} (documented map, before "
+                    f"projection) of the '{ev['kind']}' trial point "
+                    f"{ev['x'].tolist()} lies outside the user's box by "
+                    f"{float(np.max(exc)):.3g}: the functions were called "
+                    f"at a repaired point",
+                    mechanism="image_outside:" + ev["kind"],
+                    excess=float(np.max(exc)), eval_index=ev["i"]))
+                break
     return out, info
 
 
